@@ -47,7 +47,7 @@ import (
 // max ticks/byte on inputs of >= 8 bytes; the bound below keeps >= 4x headroom
 // over both.
 const (
-	tickC  = 100 // ticks per input byte   (observed maximum 23.7 on inputs of >= 8 bytes)
+	tickC  = 100 // ticks per input byte   (observed maximum 24.25 on inputs of >= 8 bytes, quick and thorough)
 	tickC0 = 500 // constant part          (observed maximum 64 on inputs of <= 2 bytes)
 	// "Parse returns": a Parse still running after tickCapFactor times its
 	// linear bound plus tickCapBase ticks is reported as non-terminating (a step
